@@ -35,7 +35,7 @@ ASSUMPTIONS = [
 ]
 REQUIRED_REACH = {"monitor.baseline_metrics": 300, "contract.safe_divide": 1000, "monitor.reporting_metrics": 50,
                   "monitor.caltrack_metrics": 50, "monitor.hourly_stored_vs_predict": 3, "monitor.hourly_gate": 6,
-                  "monitor.daily_error": 4, "monitor.daily_gate": 4, "ratio.undefined_expected": 20, "monitor.hourly_gate_undefined_metric": 2, "monitor.hourly_gate_undefined_metric_straddled": 3, "data.hourly_weather_gaps_away_from_meter_gaps": 4, "monitor.reporting_metrics_local_zone_index": 20, "monitor.daily_model_object_reused": 2}
+                  "monitor.daily_error": 4, "monitor.daily_gate": 4, "ratio.undefined_expected": 20, "monitor.hourly_gate_undefined_metric": 2, "monitor.hourly_gate_undefined_metric_straddled": 3, "data.hourly_weather_gaps_away_from_meter_gaps": 4, "monitor.reporting_metrics_local_zone_index": 20, "monitor.daily_model_object_reused": 2, "edge.level_huge_relative_to_spread": 20}
 
 VIOL = []
 CTX = {"where": "direct"}
@@ -164,7 +164,7 @@ def setup_worker():
 # ---------------------------------------------------------------------------------------------
 def _series(rng):
     edge = str(rng.choice(["normal", "zero_mean", "tiny_mean", "zero_spread", "negative", "int", "perfect", "const_resid",
-                           "near_zero_iqr", "short"], p=[0.3, 0.08, 0.07, 0.08, 0.1, 0.07, 0.07, 0.06, 0.07, 0.1]))
+                           "near_zero_iqr", "short", "large_offset"], p=[0.26, 0.08, 0.07, 0.08, 0.1, 0.07, 0.07, 0.06, 0.07, 0.08, 0.06]))
     n = int(np.exp(rng.uniform(np.log(2), np.log(20000)))) if edge != "short" else int(rng.integers(2, 6))
     n = max(n, 2)
     base = rng.uniform(0.5, 500)
@@ -177,6 +177,12 @@ def _series(rng):
         o = np.full(n, float(rng.choice([0.0, 1.0, base])))
     elif edge == "negative":
         o = -np.abs(o) if rng.random() < 0.5 else o - 1.5 * base
+    elif edge == "large_offset":
+        # a level that is huge relative to the spread (a cumulative register read as usage, a sub-meter on a big constant load, a net-metered
+        # site): statistics that are differences of large moments lose every digit unless they are computed from centred values
+        base = float(rng.uniform(2, 6))
+        o = float(rng.choice([5e6, 2.5e8, -1e9, 3e7])) + base * np.sin(np.arange(n) / rng.uniform(1, 50)) + rng.normal(0, 0.3 * base, n)
+        I.reach("edge.level_huge_relative_to_spread")
     elif edge == "near_zero_iqr":
         o = np.full(n, base)
         k = max(1, n // 10)
